@@ -17,6 +17,7 @@ seeded samples of the triple/decoration products):
   T         a few hand-made layouts off the raster, minimised from findings of the random search
   P         prepeptides with leader / tail present or absent (4 combinations) on every gene of a region that
             does not start at base 0 (second region of a linear record; region over the origin)
+  K         twelve genes, 11-13 areas: a multi-member candidate / region / subregion pair numbered 8+9, 9+10, 10+11
   N         a gene with a locus tag of 47 / 52 / 68 characters (wrapped in GenBank qualifiers) x every decoration
   O         origin-spanning multi-exon genes (both strands) x an origin-spanning region cutting them in the
             inner exon / in the intron / in the outer exon / not at all
@@ -430,7 +431,51 @@ def family_n(tier: str) -> Iterator[dict]:
                        "seed": 4, "genes": genes, "rules": rules, "subs": [], "misc": []}
 
 
-FAMILIES = {"T": family_t, "P": family_p, "O": family_o, "N": family_n, "A1": family_a1, "A2": family_a2, "A3": family_a3, "AS": family_as, "AX": family_ax,
+def family_k(tier: str) -> Iterator[dict]:
+    """ records of length 720 with twelve genes and 11-13 protoclusters / candidate clusters (or subregions), so
+        that area numbers have two digits: single-gene protoclusters everywhere and one multi-member group whose
+        numbers straddle 8/9 (control), 9/10 or 10/11 - a neighbouring pair, a chemical hybrid pair, an interleaved
+        pair plus a neighbouring third, and a pair of overlapping subregions """
+    length = 720
+    for first in (7, 8, 9):         # index of the first gene of the group: its areas are numbered first + 1, ...
+        for kind in ("neighbouring", "hybrid", "interleaved+neighbouring", "subregions"):
+            genes = [{"n": f"g{k:02d}", "p": [[15 + 60 * k, 45 + 60 * k]], "s": 1 if k % 3 else -1} for k in range(12)]
+            genes[first]["a"] = ["P"]
+            name = lambda k: f"g{k:02d}"   # noqa: E731
+            group = {"neighbouring": [first, first + 1], "hybrid": [first, first + 1],
+                     "interleaved+neighbouring": [first, first + 1, first + 2], "subregions": []}[kind]
+            rules, subs = [], []
+            for k in range(12):
+                if k in group:
+                    continue
+                if kind == "subregions":
+                    subs.append({"p": [[60 * k + 10, 60 * k + 50]], "tool": "cassis", "label": name(k)})
+                if kind != "subregions" or k % 4 == 0:
+                    rules.append({"anchors": [name(k)], "nb": 0, "cut": 15})
+            if kind == "neighbouring":
+                rules += [{"anchors": [name(first)], "nb": 45, "cut": 10}, {"anchors": [name(first + 1)], "nb": 45, "cut": 10}]
+            elif kind == "hybrid":
+                rules += [{"anchors": [name(first), name(first + 1)], "nb": 15, "cut": 20},
+                          {"anchors": [name(first + 1)], "nb": 0, "cut": 15}]
+            elif kind == "interleaved+neighbouring":
+                rules += [{"anchors": [name(first), name(first + 2)], "nb": 0, "cut": 15},
+                          {"anchors": [name(first + 1)], "nb": 0, "cut": 15},
+                          {"anchors": [name(first + 2)], "nb": 15, "cut": 20}]
+                genes.append({"n": "g12", "p": [[60 * (first + 2) + 48, 60 * (first + 2) + 57]], "s": 1})
+                rules[-1] = {"anchors": ["g12"], "nb": 15, "cut": 20}
+            else:
+                subs = [sub for sub in subs if sub["label"] not in (name(first), name(first + 1))]
+                subs += [{"p": [[60 * first + 10, 60 * first + 80]], "tool": "cassis", "label": name(first)},
+                         {"p": [[60 * first + 60, 60 * first + 110]], "tool": "verif-tool", "label": "ext", "side": 1}]
+            rules.sort(key=lambda rule: rule["anchors"][0])
+            genes.sort(key=lambda gene: gene["p"][0][0])
+            rules = [dict(rule, prod=f"{PRODUCTS[i % 3][0]}{'' if i < 3 else i}", cat=PRODUCTS[i % 3][1])
+                     for i, rule in enumerate(rules)]
+            yield {"fam": "K", "lay": f"{kind}/{first + 1}", "L": length, "circ": 0, "seed": 5, "genes": genes,
+                   "rules": rules, "subs": subs, "misc": []}
+
+
+FAMILIES = {"T": family_t, "P": family_p, "O": family_o, "N": family_n, "K": family_k, "A1": family_a1, "A2": family_a2, "A3": family_a3, "AS": family_as, "AX": family_ax,
             "B": family_b, "M": family_m}
 
 
